@@ -17,6 +17,8 @@ AfterBulk == Len(wire) >= 2 /\ wire[Len(wire) - 1].k = "bulk"     \* exactly one
 
 LastBulk == CHOOSE i \in DOMAIN wire : wire[i].k = "bulk" /\ \A j \in DOMAIN wire : wire[j].k = "bulk" => j <= i
 NeedBulk == cnt.bulk < MinBulk
+\* some connection has exchanged both FINs and its last ACK is still in flight
+Closing  == \E c \in Convs : ~Finished(c) /\ \E i \in DOMAIN wire : wire[i].c = c /\ wire[i].k = "finack"
 \* a bulk block has passed and the schedule is still in the block's capture file
 NeedCut  == WantCutAfterBulk /\ cnt.bulk >= 1 /\ curFile = wire[LastBulk].file /\ Last(wire).k # "bulk"
 
@@ -36,7 +38,7 @@ GenNext ==
         IN  IF hand # {} THEN hand
             ELSE IF WantCutAfterBulk /\ AfterBulk /\ cut # {} /\ dice <= 60 THEN cut
             ELSE IF Len(wire) >= 1 /\ Last(wire).k = "bulk" /\ emitd # {} /\ dice <= 80 THEN emitd
-            ELSE IF bulk # {} /\ (dice <= 3 \/ (NeedBulk /\ dice <= 10)) THEN bulk
+            ELSE IF bulk # {} /\ (dice <= 3 \/ (NeedBulk /\ dice <= 6) \/ (NeedBulk /\ Closing /\ dice <= 30)) THEN bulk
             ELSE IF NeedCut /\ cut # {} /\ dice <= 40 THEN cut
             ELSE IF pert # {} /\ dice > 70 THEN pert
             ELSE IF prog # {} THEN prog
